@@ -82,6 +82,7 @@ def wellposed_case(draw, graded):
     mode = draw(st.sampled_from(["wellposed", "redundant"])) if not graded else "wellposed"
     case = draw(lt.chopped_lattice(mode, graded=graded, min_cells=2))
     case["picks"] = draw(_picks)
+    case["rewrite"] = draw(st.integers(0, 2)) == 0
     return case
 
 
@@ -111,6 +112,39 @@ def flanked_case(draw):
     case["chops"] = draw(st.permutations(chops))
     case["mode"] = "flanked"
     case["picks"] = draw(_picks)
+    case["rewrite"] = draw(st.integers(0, 2)) == 0
+    return case
+
+
+@st.composite
+def chain_case(draw):
+    """A row of 3-6 blocks (optionally with a second, partial row) where a family is chopped in ONE block only, so the
+    count has to travel along the whole chain, in a drawn insertion order."""
+    k = draw(st.integers(3, 6))
+    second = draw(st.booleans()) and k <= 4
+    dims = [k, 2 if second else 1, 1]
+    perm = draw(st.permutations([0, 1, 2]))
+    dims = [dims[perm[a]] for a in range(3)]
+    ncell = dims[0] * dims[1] * dims[2]
+    keep = list(range(ncell))
+    if second:
+        drop = draw(st.lists(st.sampled_from(keep), max_size=ncell - k, unique=True))
+        keep = [c for c in keep if c not in drop] or keep
+    cells = draw(st.permutations(keep))
+    case = {
+        "dims": dims,
+        "widths": [[10.0 ** draw(st.floats(-0.5, 0.5)) for _ in range(dims[a])] for a in range(3)],
+        "jitter": [], "cells": list(cells), "orient": [draw(st.integers(0, 23)) for _ in cells], "chops": [],
+    }
+    fams, _ = lt.lattice_families(case)
+    chops = []
+    for fam in fams:
+        c, d = draw(st.sampled_from(fam))
+        chops.append({"cell": c, "gdir": d, "args": lt.count_chop(draw)})
+    case["chops"] = chops
+    case["mode"] = "chain"
+    case["picks"] = draw(_picks)
+    case["rewrite"] = draw(st.integers(0, 3)) == 0
     return case
 
 
@@ -128,6 +162,21 @@ def check_complete(case, ctx: Ctx) -> None:
                 return
         raise Violation("wellposed-rejected", f"well-posed model raised {type(payload).__name__}: {payload}",
                         error=type(payload).__name__, **facts)
+    if case.get("rewrite"):
+        # the same mesh is written again (after an optimisation, say): same verdicts, same file
+        path = lt.write_path()
+        try:
+            fuel.run(lambda: built.mesh.write(path), fuel_limit(len(built.ops)))
+        except fuel.OutOfFuel:
+            raise Violation("non-termination", "second write did not finish within the fuel limit", **facts) from None
+        except Exception as ex:  # noqa: BLE001
+            raise Violation("second-write-rejected", f"second write of a well-posed model raised {type(ex).__name__}: {ex}",
+                            error=type(ex).__name__, **facts) from None
+        with open(path) as f:
+            second = f.read()
+        if second != payload:
+            raise Violation("second-write-differs", "writing the same mesh again produced a different file", **facts)
+        ctx.label("rewrite")
     try:
         bmd = lt.parse(payload)
     except FoamParseError as ex:
@@ -362,6 +411,8 @@ CELLS = [
     Cell("C02/complete/flanked", flanked_case(), check_complete, 150, 6000,
          "an un-chopped block flanked by two identically chopped blocks plus a neighbour of it (livelock shape), drawn "
          "insertion order / numbering / schedule"),
+    Cell("C02/complete/chain", chain_case(), check_complete, 150, 6000,
+         "rows of 3-6 blocks with a single chop per family: the count travels along the chain in any insertion order"),
     Cell("C02/complete/count", wellposed_case(False), check_complete, 200, 8000,
          "well-posed / redundant count chops + drawn schedule: terminates, writes, every block direction has its family's count",
          fixed_cases=_LIVELOCK),
